@@ -653,6 +653,9 @@ def verify_function(src, registry: Registry, schema_factory, models, ct: Contrac
     if ct.trusted:
         rep.status = "trusted"
         return rep
+    if ct.bounded:
+        rep.status = "bounded"
+        return rep
     fi = src.funcs.get(ct.key)
     if fi is None:
         rep.status = "unsupported"
